@@ -153,15 +153,19 @@ def nelder_mead(
                     # Shrink toward best
                     _shrink(simplex, values, sigma, evaluate)
 
+        # The worst vertex may just have been replaced by a point better than simplex[0]: report the best vertex
+        best_idx = min(range(n + 1), key=lambda i: values[i])
         if report_progress(
             on_progress,
             progress_interval,
             iteration,
-            evaluate.to_user(values[0]),
-            evaluate.to_user(values[0]),
+            evaluate.to_user(values[best_idx]),
+            evaluate.to_user(values[best_idx]),
             evaluate.evals,
         ):
-            return Result(simplex[0], evaluate.to_user(values[0]), iteration, evaluate.evals, Status.FEASIBLE)
+            return Result(
+                simplex[best_idx], evaluate.to_user(values[best_idx]), iteration, evaluate.evals, Status.FEASIBLE
+            )
 
     # Find best vertex
     best_idx = min(range(n + 1), key=lambda i: values[i])
